@@ -605,6 +605,10 @@ def _robust_gp_fit_(
                 # Remove also user specified noise
                 if tmp_gp.s2 is not None and tmp_gp.s2.size > 0:
                     tmp_gp.s2 = tmp_gp.s2[~idx_drop_out]
+                # (keep the data held by the working GP aligned with its noise vector)
+                if tmp_gp.X is not None and tmp_gp.X.shape[0] == idx_drop_out.size:
+                    tmp_gp.X = tmp_gp.X[~idx_drop_out]
+                    tmp_gp.y = tmp_gp.y[~idx_drop_out]
                 if s2 is not None and not np.isscalar(s2):
                     s2 = s2[~idx_drop_out]
 
